@@ -1,6 +1,38 @@
 (* C05 -- reset makes render a pure function of source and options.  Property theorems only. *)
 From Rimu Require Import Base Regex RegexParse Str Types Tables Guards State Inline Block
-  Frame FrameBlock FrameInst OptionsLemmas MiscLemmas.
+  Frame FrameBlock FrameInst OptionsLemmas MiscLemmas Rel RelBlock RelApi.
+
+(* A render call that carries reset produces output and diagnostics that depend only on its own source and
+   options: from any two sessions whatever -- any histories, including the never-initialised interpreter --
+   the same HTML (or the same failure), the same diagnostics appended, and sessions that agree on everything
+   except the older part of the log and the list-id scratch stack.  For every fuel, source and option set. *)
+Theorem C05_reset_pure : forall n src o a b,
+  reset_is_false (o_reset o) = false -> reset_is_true (o_reset o) = true ->
+  match api_render n src o a, api_render n src o b with
+  | Ok (h1, a'), Ok (h2, b') =>
+      h1 = h2 /\ core a' = core b' /\ s_cb a' = s_cb b' /\
+      exists d, s_log a' = d ++ s_log a /\ s_log b' = d ++ s_log b
+  | Raise e1, Raise e2 => e1 = e2
+  | Fuel, Fuel => True
+  | _, _ => False
+  end.
+Proof. exact reset_pure. Qed.
+Print Assumptions C05_reset_pure.
+
+(* in particular it equals the same call made first in a fresh process *)
+Theorem C05_equals_fresh_process : forall n src o a,
+  reset_is_false (o_reset o) = false -> reset_is_true (o_reset o) = true ->
+  match api_render n src o a, api_render n src o S0 with
+  | Ok (h1, _), Ok (h2, _) => h1 = h2
+  | Raise e1, Raise e2 => e1 = e2
+  | Fuel, Fuel => True
+  | _, _ => False
+  end.
+Proof.
+  intros n src o a H1 H2. pose proof (reset_pure n src o a S0 H1 H2) as R.
+  destruct (api_render n src o a) as [[h1 a']| |]; destruct (api_render n src o S0) as [[h2 b']| |]; auto. apply R.
+Qed.
+Print Assumptions C05_equals_fresh_process.
 
 (* After the option phase of a call carrying a truthy reset, the session is the same whatever came
    before (any two prior states, including the never-initialised one), except for the diagnostic log
